@@ -961,6 +961,9 @@ def run_registration(repo: Repo, res: Result, rule: str) -> int:
                 det2 = f"the walk can leave the loop `{_loop_text(early[0])}` early (break / return): later paths are never registered"
             elif ok2:
                 det2 = f"every non-excluded {kind if kind != 'file' else '.py file'} is registered"
+            elif extra and (config := [a for a in extra if _is_config_test(sx, a, info)]) and (rest := [a for a in extra if a not in config]) and all(_mentions(sx, a, reg) for a in rest):
+                # an option of the scanner (a constructor parameter tested for None) switches on a filter on the visited path / its name
+                det2 = f"when `{config[0][:60]}` does not hold, the registration of a {kind} additionally depends on `{' , '.join(rest)[:160]}`: not every non-excluded {kind if kind != 'file' else '.py file'} becomes a module"
             elif extra and (all(_is_plumbing_test(sx, a) for a in extra) or not all(_mentions(sx, a, reg) for a in extra)):
                 # only a condition on the visited path / its name is recognisably an additional filter
                 odd = next((a for a in extra if not _mentions(sx, a, reg)), extra[0])
@@ -1080,6 +1083,17 @@ def _mentions(sx: SymX, key: str, reg: Reg) -> bool:
     # (an alternative of) the registered name itself is tested
     alts = [v for _g, v in reg.element[1]] if reg.element[0] == "phi" else [reg.element]
     return any(x in alts for x in subterms(t))
+
+
+def _is_config_test(sx: SymX, key: str, info: ScanInfo) -> bool:
+    """`<constructor parameter of the scanner> is None` (also through the field it is stored in): which value it has is the caller's
+    choice, both are possible."""
+    t = sx.atoms.get(key)
+    if t is None or not (t[0] == "cmp" and t[1] == "is" and any(is_none(o) for o in (t[2], t[3]))):
+        return False
+    o = t[3] if is_none(t[2]) else t[2]
+    cls = info.parse.cls.name if info.parse.cls else ""
+    return o[0] == "param" and o[1].startswith(cls + ".") and bool(cls)
 
 
 def _is_plumbing_test(sx: SymX, key: str) -> bool:
